@@ -110,6 +110,14 @@ def run(pid, tier, ev=None, vd=None, finish=True):
         for k in range(4 if tier == "quick" else 60):
             jobs.append({"prog": "emptyloser", "program": {1: [("put", "f", None, "c0"), ("get", "f")], 2: [("put", "f", "c1", "c2")]},
                          "init": {"f": "c1"}, "policy": "random", "seed": vlib.seed() * 37 + k, "src": "search", "allow_empty": True})
+        # a file some client owns at the name of a conflict-copy, and a commit of that very content at the plain path: the file stays
+        for k in range(3):
+            jobs.append({"prog": "confkeep", "program": {1: [("put", "f", "c1", "c2"), ("get", "f#c2")], 2: [("get", "f#c2"), ("put", "g", None, "c2")]},
+                         "init": {"f": "c1", "f#c2": "c2"}, "policy": "random", "seed": vlib.seed() * 41 + k, "src": "corpus"})
+        # a refused Put into a directory that does not exist yet, while another server commits into that directory
+        for k in range(12 if tier == "quick" else 200):
+            jobs.append({"prog": "baddir", "program": {1: [("badput", "n/a", None, "c2"), ("get", "n/b")], 2: [("put", "n/b", None, "c3"), ("get", "n/b")]},
+                         "init": {"f": "c1"}, "policy": "random", "seed": vlib.seed() * 43 + k, "src": "search"})
         # the hub's own lock file addressed by a client as an ordinary path (it starts empty = "c0"): whatever the hub
         # answers, the compare-and-swap of the OTHER clients must stay linearizable (schedule as in lock_identity)
         jobs.append({"prog": "lockfile", "program": {1: [("put", ".copia/commit.lock", "c0", "c2")], 2: [("put", "f", "c1", "c2")], 3: [("put", "f", "c1", "c3")]},
